@@ -12,7 +12,7 @@
 (* [ok |-> BOOLEAN, row |-> row]; the set has more than one member only    *)
 (* where the property statement leaves the outcome open (DESIGN.md 5.4).   *)
 (***************************************************************************)
-EXTENDS Bytes, Num64, Integers, Sequences, FiniteSets
+EXTENDS Bytes, Num64, Integers, Sequences, FiniteSets, TLC
 
 NoRow == <<>>                       \* the function with empty domain
 
@@ -23,19 +23,20 @@ CellsOf(row, c)    == IF c \in DOMAIN row THEN row[c] ELSE <<>>
 ValidTs(t) == ~IsNeg(t) /\ LE64(t, MaxValidTs) /\ IsMilli(t)
 
 \* replace / insert the cell at timestamp t
-UpdCells(cells, t, v) == [x \in (DOMAIN cells) \cup {t} |-> IF x = t THEN v ELSE cells[x]]
+\* (TLCEval forces the function to be built now: TLC would otherwise nest lazy function values request after request)
+UpdCells(cells, t, v) == TLCEval([x \in (DOMAIN cells) \cup {t} |-> IF x = t THEN v ELSE cells[x]])
 
 PutCell(row, c, t, v) ==
-  [x \in (DOMAIN row) \cup {c} |-> IF x = c THEN UpdCells(CellsOf(row, c), t, v) ELSE row[x]]
+  TLCEval([x \in (DOMAIN row) \cup {c} |-> IF x = c THEN UpdCells(CellsOf(row, c), t, v) ELSE row[x]])
 
 \* keep only the cells of column c whose timestamp satisfies Keep(_); drop the column if none is left
 RestrictCol(row, c, Keep(_)) ==
   IF c \notin DOMAIN row THEN row
   ELSE LET ks == {t \in DOMAIN row[c] : Keep(t)} IN
-       IF ks = {} THEN [x \in (DOMAIN row) \ {c} |-> row[x]]
-       ELSE [x \in DOMAIN row |-> IF x = c THEN [t \in ks |-> row[c][t]] ELSE row[x]]
+       IF ks = {} THEN TLCEval([x \in (DOMAIN row) \ {c} |-> row[x]])
+       ELSE TLCEval([x \in DOMAIN row |-> IF x = c THEN [t \in ks |-> row[c][t]] ELSE row[x]])
 
-DropFamily(row, f) == [x \in {c \in DOMAIN row : c[1] # f} |-> row[x]]
+DropFamily(row, f) == TLCEval([x \in {c \in DOMAIN row : c[1] # f} |-> row[x]])
 
 \* greatest timestamp of a non-empty cells function
 Newest(cells) == CHOOSE t \in DOMAIN cells : \A u \in DOMAIN cells : GE64(t, u)
@@ -159,7 +160,7 @@ ByFamily(obs) ==
 
 \* each family occupies one contiguous block
 FamiliesOnce(obs) ==
-  \A i, k \in 1..Len(obs) : (i < k /\ obs[i].f = obs[k].f) => \A j \in i..k : obs[j].f = obs[i].f
+  \A i \in 1..(Len(obs) - 1) : obs[i].f # obs[i+1].f => \A k \in (i+1)..Len(obs) : obs[k].f # obs[i].f
 
 StripCells(cs) == [i \in 1..Len(cs) |-> [ts |-> cs[i].ts, v |-> cs[i].v]]
 StripObs(obs)  == [i \in 1..Len(obs) |-> [f |-> obs[i].f, q |-> obs[i].q, cells |-> StripCells(obs[i].cells)]]
